@@ -1103,8 +1103,10 @@ def r14(R):
                         hit = op.path[-1]
             if hit == 'tpc_begin':
                 begins[0] += 1
-                # (a tpc_begin that raises has not begun)
-                return 'idle' if lab in ('e', 'eb') else 'open'
+                # (a tpc_begin that raises may have taken the commit lock
+                # already: a file storage rejects over-long metadata after
+                # it has; tpc_abort is harmless when it has not)
+                return 'open'
             if hit == 'tpc_vote':
                 # a failing vote leaves the transaction open
                 return st if lab in ('e', 'eb') else 'voted'
